@@ -190,14 +190,20 @@ def post_snap_grid(args, kw, res, exc, snap):
     eps = 1e-9 * max(1.0, abs(x0) / a, abs(x1) / a)
     covers = isinstance(nx, (int, np.integer)) and nx >= 1 and lo <= x0 + (tol + eps) * a and hi >= x1 - (tol + eps) * a
     if off is None:
-        minimal = nx <= max(1, math.ceil((x1 - x0) / a + eps))
+        span = (x1 - x0) / a
+        if abs(_frac_dist(span) - tol) <= eps:
+            return _mon.skip("snap_grid", "tolerance-boundary")
+        minimal = nx == 1 or (nx - 1) < span - tol + eps
         aligned = (lo == x0) if r > 0 else (hi == x1)
         cls = "float"
     else:
-        minimal = nx == 1 or ((x0 - lo) < (1 + tol + eps) * a and (hi - x1) < (1 + tol + eps) * a)
-        if nx == 1 and covers:
-            # a single pixel must still be a necessary one: span fits in one aligned pixel
-            minimal = (x0 - lo) < (1 + tol + eps) * a and (hi - x1) < (1 + tol + eps) * a
+        u0, u1 = x0 / a - off, x1 / a - off
+        if abs(_frac_dist(u0) - tol) <= eps or abs(_frac_dist(u1) - tol) <= eps:
+            return _mon.skip("snap_grid", "tolerance-boundary")
+        # minimal: dropping the first or the last pixel would uncover x0 / x1 by more than tol
+        minimal = nx == 1 or ((lo + a) > x0 + (tol - eps) * a and (hi - a) < x1 - (tol - eps) * a)
+        # and never more than a pixel (plus tol) of slack on either side
+        minimal = minimal and (x0 - lo) < (1 + tol + eps) * a and (hi - x1) < (1 + tol + eps) * a or (nx == 1 and (hi - lo) <= a * (1 + eps))
         k = lo / a - off
         aligned = abs(k - round(k)) <= 1e-6 * max(1.0, abs(k) * 1e-3 + 1)
         cls = "edge" if off == 0 else "centre" if off == 0.5 else "fraction"
